@@ -16,7 +16,21 @@ pub struct PanicInfo {
 impl PanicInfo {
     /// identity used for known-finding signatures: message head + file (no line numbers)
     pub fn sig(&self) -> String {
-        let head: String = self.message.chars().take(60).collect();
+        // numbers inside messages (lengths, indices) are not part of the identity
+        let mut head = String::new();
+        let mut last_digit = false;
+        for c in self.message.chars().take(80) {
+            if c.is_ascii_digit() {
+                if !last_digit {
+                    head.push('#');
+                }
+                last_digit = true;
+            } else {
+                head.push(c);
+                last_digit = false;
+            }
+        }
+        let head: String = head.chars().take(60).collect();
         format!("{} @ {}", head, self.file)
     }
 }
@@ -43,6 +57,20 @@ pub fn install_panic_hook() {
                 .map(|l| (l.file().to_string(), l.line()))
                 .unwrap_or(("?".into(), 0));
             // normalise absolute paths so signatures do not depend on where /repo lives
+            // dependencies: crate name + path inside it, without registry location and version
+            let file = match file.find("/registry/src/") {
+                Some(i) => {
+                    let rest: Vec<&str> = file[i + 14..].splitn(3, '/').collect();
+                    if rest.len() == 3 {
+                        let krate = rest[1].rsplit_once('-').map(|(n, _)| n).unwrap_or(rest[1]);
+                        let krate = krate.trim_end_matches(|c: char| c.is_ascii_digit() || c == '.' || c == '-').trim_end_matches("-alpha");
+                        format!("dep:{}/{}", krate, rest[2])
+                    } else {
+                        file
+                    }
+                }
+                None => file,
+            };
             let file = match file.find("crates/") {
                 Some(i) => file[i..].to_string(),
                 None => match file.find("bin/tx3c") {
